@@ -20,7 +20,7 @@ func init() {
 			"(X-gen) every field of every module GenesisState is consumed by InitGenesis and produced by ExportGenesis, and InitGenesis does not overwrite a field of the state it was given; (X-mem) every write to in-memory keeper state is wiring, a rebuild from the store, or a self-validating cache — anything else is consensus-relevant state outside the store.",
 		NotCovered:  []string{"bit-identical app hash (needs two executions)", "losslessness of exported values beyond field coverage", "nondeterminism inside dependencies (SDK, wasmvm)"},
 		Assumptions: []string{"scope by package class rather than reachability (conservative)", "telemetry calls do not influence state"},
-		MinObl:      165,
+		MinObl:      170,
 		Run:         runC19,
 	})
 }
